@@ -127,6 +127,9 @@ class ExprMixin:
             if _is_object_call(r[1]):
                 return ("sentinel", r[2].name + "." + name)
             c = r[1]
+            nt = self._namedtuple_def(c, r[2])
+            if nt is not None:
+                return nt
             if isinstance(c, ast.IfExp) and isinstance(c.body, ast.Name) and isinstance(c.orelse, ast.Name) \
                     and {c.body.id, c.orelse.id} <= {"str", "bytes"} and self.prog.resolve(r[2], c.body.id) is None \
                     and self.prog.resolve(r[2], c.orelse.id) is None:
@@ -139,6 +142,27 @@ class ExprMixin:
                     return ("attrgetter", tuple(a.value for a in c.args))
             return ("global", r[2].name + "." + name)
         return None
+
+    def _namedtuple_def(self, c, module):
+        """NAME = namedtuple('T', fields) with constant fields -> ('ntcls', 'T', fields)."""
+        if not (isinstance(c, ast.Call) and isinstance(c.func, (ast.Name, ast.Attribute)) and len(c.args) == 2 and not c.keywords):
+            return None
+        fname = c.func.id if isinstance(c.func, ast.Name) else c.func.attr
+        if fname != "namedtuple":
+            return None
+        if isinstance(c.func, ast.Name):
+            f = self.prog.resolve(module, c.func.id)
+            if not (f and f[0] == "ext" and f[1].split(".")[-1] == "namedtuple"):
+                return None
+        ok1, tn = self.prog.try_fold(c.args[0], module)
+        ok2, fl = self.prog.try_fold(c.args[1], module)
+        if not (ok1 and ok2 and isinstance(tn, str)):
+            return None
+        if isinstance(fl, str):
+            fl = fl.replace(",", " ").split()
+        if not (isinstance(fl, (list, tuple)) and all(isinstance(x, str) for x in fl)):
+            return None
+        return ("ntcls", tn, tuple(fl))
 
     def constobj_value(self, t):
         """Value of a ('constobj', 'module.name') or ('constobj', 'Class.attr') term."""
@@ -227,9 +251,32 @@ class ExprMixin:
                         return ("cls", r[1])
                     if r and r[0] == "func":
                         return ("func", r[1])
+                    if r and r[0] == "ext":
+                        return ("ext", r[1])
+                    if r is None and v.id in ("dict", "list", "set", "tuple", "bytearray", "str", "bytes", "int"):
+                        return ("builtin", v.id)
+                    if r and r[0] == "const":
+                        ntc = self._namedtuple_def(r[1], r[2])
+                        if ntc is not None:
+                            return ntc
                 if isinstance(v, (ast.Tuple, ast.List)):
                     xs = [val(x) for x in v.elts]
                     return None if any(x is None for x in xs) else ("tuple", tuple(xs))
+                if isinstance(v, ast.Call) and isinstance(v.func, ast.Name):
+                    # a row written as a namedtuple: Row('a', b) / Row(x='a', y=b)
+                    fcls = val(v.func)
+                    if isinstance(fcls, tuple) and fcls[:1] == ("ntcls",):
+                        fields = fcls[2]
+                        vals = [val(x) for x in v.args]
+                        kws = {k.arg: val(k.value) for k in v.keywords}
+                        if any(x is None for x in vals) or any(x is None for x in kws.values()) or None in kws:
+                            return None
+                        row = list(vals)
+                        for fname in fields[len(vals):]:
+                            if fname not in kws:
+                                return None
+                            row.append(kws[fname])
+                        return ("tuple", tuple(row), fields) if len(row) == len(fields) else None
                 ok2, c = self.prog.try_fold(v, owner.module, owner, class_body=True)
                 return const(c) if ok2 and not isinstance(c, (dict, list)) else None
             if isinstance(expr, ast.Tuple):
@@ -281,6 +328,9 @@ class ExprMixin:
             yield "ok", ("attr", base, attr), st
             return
         kind = base[0]
+        if kind == "tuple" and len(base) > 2 and attr in base[2]:
+            yield "ok", base[1][base[2].index(attr)], st        # field of a namedtuple row
+            return
         if base == ("attr", SELF, "state"):
             # state-pattern dispatch: one continuation per value self.state can take
             slots = [sl for sl in sorted(self.state_slots) if sl in self.state_values] or sorted(self.state_slots)
@@ -730,6 +780,44 @@ class ExprMixin:
     def _comprehension(self, n, elts, st, fx):
         """Comprehensions and generator expressions: iterables and element expressions are evaluated once for their events
         (registry reads, membership tests); the result is opaque."""
+        if len(n.generators) == 1 and not n.generators[0].ifs and len(elts) == 1 and isinstance(n, (ast.ListComp, ast.GeneratorExp)):
+            # over a display whose elements are known (a constant table, a tuple of registries): the list of the instances
+            g = n.generators[0]
+            for r0, it0, s0 in self.ev(g.iter, st.fork(), fx):
+                items = None
+                if r0 == "ok" and isinstance(it0, tuple):
+                    if it0[0] in ("tuple", "list"):
+                        items = list(it0[1])
+                    elif is_const(it0) and isinstance(it0[1], (tuple, list)):
+                        items = [const(x) for x in it0[1]]
+                break
+            else:
+                items = None
+            if items is not None and len(items) <= 16:
+                saved0 = dict(st.env)
+
+                def go(i, s, acc):
+                    if i == len(items):
+                        for k in list(s.env):
+                            if k not in saved0:
+                                del s.env[k]
+                        yield "ok", ("list", tuple(acc)), s
+                        return
+                    for ex, s1 in self.assign(g.target, items[i], s, fx, n):
+                        if ex is not None:
+                            yield "raise", ex[1], s1
+                            continue
+                        for r1, v1, s2 in self.ev(elts[0], s1, fx):
+                            if r1 == "raise":
+                                yield r1, v1, s2
+                            else:
+                                yield from go(i + 1, s2, acc + [v1])
+                for r0, it0, s0 in self.ev(g.iter, st, fx):
+                    if r0 == "raise":
+                        yield r0, it0, s0
+                    else:
+                        yield from go(0, s0, [])
+                return
         saved = dict(st.env)
         consumer = None
         for c in ast.walk(fx.func.node):
@@ -752,17 +840,23 @@ class ExprMixin:
                 if r == "raise":
                     yield r, it, s1
                     continue
-                for _ in self.assign(g.target, ("iterof", it), s1, fx, n):
-                    pass
-                for r2, conds, s2 in self.ev_list(list(g.ifs), s1, fx):
-                    if r2 == "raise":
-                        yield r2, conds, s2
-                    else:
-                        del seen_iters[i:]
-                        del seen_ifs[i:]
-                        seen_iters.append(it)
-                        seen_ifs.append(tuple(conds))
-                        yield from gens(i + 1, s2)
+                known = None
+                if isinstance(it, tuple) and it[0] in ("tuple", "list") and len(it[1]) <= 16 and len(n.generators) > 1:
+                    known = list(it[1])       # a display of known elements (a tuple of registries): one pass per element
+                for item in (known if known is not None else [None]):
+                    s1b = s1 if known is None else s1.fork()
+                    bound = ("iterof", it) if known is None else item
+                    for _ in self.assign(g.target, bound, s1b, fx, n):
+                        pass
+                    for r2, conds, s2 in self.ev_list(list(g.ifs), s1b, fx):
+                        if r2 == "raise":
+                            yield r2, conds, s2
+                        else:
+                            del seen_iters[i:]
+                            del seen_ifs[i:]
+                            seen_iters.append(it if known is None else ("tuple", (item,)))
+                            seen_ifs.append(tuple(conds))
+                            yield from gens(i + 1, s2)
         for r, ts, s in gens(0, st):
             for k in list(s.env):
                 if k not in saved:
